@@ -160,6 +160,15 @@ def mk(rng, kind, n=3, nterms=3):
         d = {(): rng.choice([5, -2, Fraction(3, 2)])}
     elif SHAPE[0] == "empty":
         d = {}
+    elif SHAPE[0] == "zeroconst":
+        # a plain dict can hold an explicit zero constant term (model types drop zeros on construction)
+        d = rand_terms(rng, n, kind in DEG2 or kind == "dict2", nterms)
+        d = {k: v for k, v in d.items() if k}
+        if not d:
+            d[(0,)] = 1
+        d[()] = 0
+    elif SHAPE[0] == "onlyzero":
+        d = {(): 0}
     else:
         d = rand_terms(rng, n, kind in DEG2 or kind == "dict2", nterms)
         if not any(k for k in d):
@@ -280,7 +289,7 @@ def imul(x, y):
     x *= y; return x
 
 def unchanged(ctx):
-    for shape in ("normal", "offset", "empty"):
+    for shape in ("normal", "offset", "empty", "zeroconst", "onlyzero"):
         SHAPE[0] = shape
         _unchanged_shape(ctx, shape)
     SHAPE[0] = "normal"
@@ -405,8 +414,43 @@ def alias(ctx, N):
             if snapshot(H3) != rec:
                 ctx.violation("C19:alias-ctor-dict", case, "mutating the dict after construction changed the model")
 
+def info_symbolic(ctx, N):
+    """round trips of models whose terms / recorded constraints carry sympy-symbol coefficients (oracle only: the
+    rational Lean model has no symbols).  Constraints with symbolic coefficients need explicit bounds when added;
+    create_from_info re-adds them with lam=0, which must not need bounds."""
+    import sympy
+    import qubovert as qv
+    from qubovert.utils import get_info, create_from_info
+    a, w = sympy.Symbol("a"), sympy.Symbol("w")
+    rng = ctx.rng
+    for i in range(N):
+        kind = ["PCBO", "PCSO", "PUBO", "QUSO"][i % 4]
+        M = cls_of(kind)({(0,): 1, (0, 1): a if i % 3 else 2, (): w if i % 5 == 0 else 1})
+        desc = {"kind": kind, "symbolic_terms": True, "cons": []}
+        if kind in CONSTRAINED:
+            for rel in rng.sample(RELS, rng.randint(1, 3)):
+                P = {(0,): a, (1,): 1, (): -1} if rng.random() < 0.7 else {(0,): 1, (1,): 1, (): -1}
+                kw = dict(lam=rng.choice([0, 1, w]), bounds=(-3, 3))
+                if rel != "eq":
+                    kw["log_trick"] = True
+                quiet(getattr(M, "add_constraint_%s_zero" % rel), P, **kw)
+                desc["cons"].append([rel, "symbolic" if (0,) in P and P[(0,)] is a else "numeric", str(kw["lam"])])
+        case = {"family": "info-symbolic", "desc": desc}
+        ctx.case(case, True); ctx.count("info-symbolic:" + kind)
+        bad = None
+        try:
+            info = get_info(M)
+            M2 = create_from_info(info)
+            if type(M2) is not type(M) or dict(M2) != dict(M): bad = "type/terms differ"
+            elif get_info(M2) != info: bad = "get_info of the copy differs from get_info(M)"
+        except Exception as e:
+            bad = "create_from_info(get_info(M)) raised %s: %s" % (type(e).__name__, str(e)[:120])
+        if bad:
+            ctx.violation("C19:info-symbolic", case, bad)
+
 def check(ctx):
     info_cases(ctx, ctx.scale(300, 3000))
+    info_symbolic(ctx, ctx.scale(60, 400))
     for _ in range(ctx.scale(1, 5)):
         unchanged(ctx)
     alias(ctx, ctx.scale(60, 600))
